@@ -71,8 +71,9 @@ def stashGet (st : Stash) (h : Nat) : Option Item :=
   | some (some it) => some it
   | _ => none
 
-/-- `ItemStash::remove_item` -/
-def stashRemove (st : Stash) (h : Nat) : Stash := st.setIfInBounds (h - 1) none
+/-- `ItemStash::remove_item` (the invalid handle 0 is undefined behaviour in C++ — the callers
+    record that in `ub` —; here it leaves the stash alone) -/
+def stashRemove (st : Stash) (h : Nat) : Stash := if h = 0 then st else st.setIfInBounds (h - 1) none
 
 /-- `ItemStash::size()` -/
 def stashLive (st : Stash) : Nat := (st.toList.filter Option.isSome).length
